@@ -218,6 +218,23 @@ func C13(r *core.Run) {
 			}
 			one(lines)
 		})
+		// files with 9..12 tests: two-digit numbers
+		for nt := 9; nt <= 12; nt++ {
+			for shape := 0; shape < 3; shape++ {
+				var lines []string
+				for t := 0; t < nt; t++ {
+					switch shape {
+					case 0:
+						lines = append(lines, fmt.Sprintf("  - test_id: %d", 100-t), "    desc: foo")
+					case 1:
+						lines = append(lines, "  - test_title: 920100-7", "    desc: foo")
+					default:
+						lines = append(lines, fmt.Sprintf("  - test_id: %d", t*3), "    test_title: 1-1", "    desc: foo")
+					}
+				}
+				one(lines)
+			}
+		}
 		if len(o.Fails) > 2000 {
 			o.Fails = o.Fails[:2000]
 		}
